@@ -351,6 +351,12 @@ class PoolManagerMixin(object):
         # collecting the result.
         return _retrieve_traceback_capturing_wrapped_call(result)
 
+    def retrieve_result(self, out, timeout=None):
+        """Same as retrieve_result_callback, for the blocking retrieval used
+        when supports_retrieve_callback is False."""
+        result = super().retrieve_result(out, timeout=timeout)
+        return _retrieve_traceback_capturing_wrapped_call(result)
+
     def abort_everything(self, ensure_ready=True):
         """Shutdown the pool and restart a new one with the same parameters"""
         self.terminate()
